@@ -920,7 +920,7 @@ class TransformingWaveform(Waveform):
 
         # cache data of inner channels based identified and invalidated by the sample times
         self._cached_data = None
-        self._cached_times = lambda: None
+        self._cached_times = None
 
     def __hash__(self):
         return hash((self._inner_waveform, self._transformation))
@@ -983,9 +983,11 @@ class TransformingWaveform(Waveform):
                       channel: ChannelID,
                       sample_times: np.ndarray,
                       output_array: Union[np.ndarray, None] = None) -> np.ndarray:
-        if self._cached_times() is not sample_times:
+        if self._cached_times is None or not np.array_equal(self._cached_times, sample_times):
+            # The cache is identified by the values of the sample times. The identity of the array is not sufficient
+            # because the array might have been modified in place.
             self._cached_data = dict()
-            self._cached_times = ref(sample_times)
+            self._cached_times = np.array(sample_times, copy=True)
 
         if channel not in self._cached_data:
 
